@@ -7,7 +7,7 @@ def run(tier, rep):
     sd = seed()
     hs = harnesses(tier, sd)
     tasks = [dict(h=h, seed=sd % 3, mode=("MCS", "GENERATIONAL", "TOPOLOGICAL")[i % 3]) for i, h in enumerate(hs)]
-    with Pool() as pool:
+    with Pool(maxtasks=8) as pool:
         results = list(pool.imap("vf.c10_task", "c10_task", tasks))
     ties = regions = inst = 0
     for r in results:
